@@ -117,9 +117,23 @@ func (e *Encoder) writeValue(val reflect.Value, tagType byte) error {
 					}
 				}
 			case reflect.Uint8:
-				data = val.Bytes()
+				if val.Kind() == reflect.Slice || val.CanAddr() {
+					data = val.Bytes()
+				} else { // array passed by value
+					data = make([]byte, n)
+					for i := range data {
+						data[i] = byte(val.Index(i).Uint())
+					}
+				}
 			case reflect.Int8:
-				data = unsafe.Slice((*byte)(val.UnsafePointer()), val.Len())
+				if val.Kind() == reflect.Slice {
+					data = unsafe.Slice((*byte)(val.UnsafePointer()), val.Len())
+				} else { // array
+					data = make([]byte, n)
+					for i := range data {
+						data[i] = byte(val.Index(i).Int())
+					}
+				}
 			}
 			_, err := e.w.Write(data)
 			return err
